@@ -702,11 +702,17 @@ func c15SameCompared(a, b *v1alpha1.ElasticQuota) bool {
 //	flagsKept: no label-only update (compared fields unchanged) changed a bypass label so far = hypothesis `FlagsKept`
 //	          of the Lean echo / replica theorems.
 type c15Book struct {
-	taint     map[int]bool
-	flagsKept bool
+	taint      map[int]bool
+	flagsKept  bool
+	noFlagDrop bool // the weaker hypothesis `NoFlagDrop`: no label-only update DROPPED a bypass label the old object carried
 }
 
-func c15NewBook() *c15Book { return &c15Book{taint: map[int]bool{}, flagsKept: true} }
+func c15NewBook() *c15Book { return &c15Book{taint: map[int]bool{}, flagsKept: true, noFlagDrop: true} }
+
+func (b *c15Book) tags(h *vHarness) {
+	h.Tag(fmt.Sprintf("hyp:flags-kept:%d", vB(b.flagsKept)))
+	h.Tag(fmt.Sprintf("hyp:no-flag-drop:%d", vB(b.noFlagDrop)))
+}
 
 func (b *c15Book) admitted(kind string, old, sp *c15Spec, target int) {
 	switch kind {
@@ -721,6 +727,9 @@ func (b *c15Book) admitted(kind string, old, sp *c15Spec, target int) {
 		}
 		if same && (old.force != sp.force || old.treeRoot != sp.treeRoot) {
 			b.flagsKept = false
+		}
+		if same && ((old.force && !sp.force) || (old.treeRoot && !sp.treeRoot)) {
+			b.noFlagDrop = false
 		}
 	case "del":
 		delete(b.taint, target)
@@ -1543,7 +1552,7 @@ func c15History(h *vHarness, r *vRand, deep bool) {
 				}
 			}
 		}
-		h.Tag(fmt.Sprintf("hyp:flags-kept:%d", vB(book.flagsKept)))
+		book.tags(h)
 		if nsKeptAcrossUpdate {
 			h.Tag("accepted-ns-edit-keeping-a-namespace")
 		}
@@ -2228,7 +2237,31 @@ func TestVerifC15Replicas(t *testing.T) {
 				} else {
 					sp = g.fresh(target)
 				}
-				if old == nil || !r.Chance(1, 2) {
+				if old != nil && r.Chance(1, 4) {
+					// a metadata-only re-parenting (labels only, spec untouched: the generation stays): under a recorded
+					// is-parent quota with the same max keys and tree id, or back under the root
+					cp := *old
+					cp.ns = append([]int(nil), old.ns...)
+					sp = &cp
+					var cands []int
+					for _, n := range g.existing() {
+						if c := g.store[n]; n != target && c.isParent && c.tree == old.tree && c.parent != target {
+							same := true
+							for k := 0; k < c15Dims; k++ {
+								same = same && (c.mx[k] == c15Absent) == (old.mx[k] == c15Absent)
+							}
+							if same && n != old.parent {
+								cands = append(cands, n)
+							}
+						}
+					}
+					if len(cands) > 0 && !r.Chance(1, 5) {
+						sp.parent = cands[r.Intn(len(cands))]
+					} else {
+						sp.parent = 0
+					}
+					h.Tag("upd:metadata-only-reparent-attempt")
+				} else if old == nil || !r.Chance(1, 2) {
 					g.shapes(sp, rp)
 				} else if sp.nsShape == 2 {
 					sp.ns = nil
@@ -2344,7 +2377,7 @@ func TestVerifC15Replicas(t *testing.T) {
 				failed = true
 			}
 		}
-		h.Tag(fmt.Sprintf("hyp:flags-kept:%d", vB(book.flagsKept)))
+		book.tags(h)
 		h.Tag(fmt.Sprintf("final-size:%d", len(g.store)))
 		if accepted >= 3 && metaOnly >= 1 {
 			h.Nontrivial()
@@ -2379,7 +2412,7 @@ func TestVerifC15Tombstone(t *testing.T) {
 		}
 		a, _ := c15NewReplica(1)
 		b, _ := c15NewReplica(1)
-		sp := &c15Spec{name: 3, ns: []int{1}, mn: [c15Dims]int64{1000, c15Absent, c15Absent}, mx: [c15Dims]int64{8000, c15Absent, c15Absent}}
+		sp := &c15Spec{name: 3, isParent: true, ns: []int{1}, mn: [c15Dims]int64{1000, c15Absent, c15Absent}, mx: [c15Dims]int64{8000, c15Absent, c15Absent}}
 		obj := c15Object(sp)
 		h.Op("%s", c15OpLine("add", sp, nil))
 		e1 := a.qt.ValidAddQuota(obj)
@@ -2391,15 +2424,16 @@ func TestVerifC15Tombstone(t *testing.T) {
 		shape := 3 // typed object inside the tombstone: what the typed informer yields
 		if idx == 1 {
 			shape = 2 // unstructured inside: needs the type in client-go's scheme.Scheme
-			b.qt.OnQuotaDelete(c15EventObj(obj, 2))
-		} else {
-			b.qt.OnQuotaDelete(c15EventObj(obj, 3))
 		}
+		b.qt.OnQuotaDelete(c15EventObj(obj, shape))
+		child := &c15Spec{name: 4, parent: 3, mn: [c15Dims]int64{1000, c15Absent, c15Absent}, mx: [c15Dims]int64{8000, c15Absent, c15Absent}}
+		h.Op("%s", c15OpLine("add", child, nil))
+		e3 := b.qt.ValidAddQuota(c15Object(child))
 		h.Op("%s", c15OpLine("add", sp, nil))
-		e3 := b.qt.ValidAddQuota(c15Object(sp))
-		h.Obs("admit %d %d recreate-on-b %d", vB(e1 == nil), vB(e2 == nil), vB(e3 == nil))
-		if e1 == nil && e2 == nil && e3 != nil {
-			h.Fail("C15:tombstone-dropped", "quota 3 deleted through replica a, tombstone (shape %d) delivered to replica b; b still records it and refuses the re-create: %v", shape, e3)
+		e4 := b.qt.ValidAddQuota(c15Object(sp))
+		h.Obs("admit %d %d child-under-deleted-parent-on-b %d recreate-on-b %d", vB(e1 == nil), vB(e2 == nil), vB(e3 == nil), vB(e4 == nil))
+		if e1 == nil && e2 == nil && e3 == nil {
+			h.Fail("C15:tombstone-dropped", "quota 3 deleted through replica a, tombstone (shape %d) delivered to replica b; b still records it: it ADMITS quota 4 with parent 3 (parent does not exist) and refuses the re-create of 3: %v", shape, e4)
 		}
 		h.Nontrivial()
 		h.End()
